@@ -16,9 +16,11 @@ EXPLANATION = (
     "is an obligation and must be discharged: the branch facts on dominating edges - closed over inlined callees "
     "and over the per-variant facts of returned Option/Result values - together with the negated precondition "
     "must be infeasible by Fourier-Motzkin elimination over linear forms of lengths, decoded headers and loop "
-    "elements (with integer type ranges), or one of two named structural rules must apply (IDIOM-NEQ for the "
+    "elements (with integer type ranges), or one of the named structural rules must apply (IDIOM-NEQ for the "
     "inverted difference behind a `!=` filter, INV-UNIFORM for the equal-length invariant of the interpolation "
-    "vector, checked at its single write site).  obligations == discharged is required; a site listed in KNOWN_FINDINGS.txt (currently one: Client::unblind) is a recorded violation and is reported separately, not counted as an obligation.  NOT decided: termination "
+    "vector, checked at its single write site, INV-PAIRED / INV-COUNT / INV-ALLOC for vector-versus-set sizes, "
+    "vectors filled by completed loops and allocation bounds).  Sites inside debug_assert! expansions are attempted "
+    "like any other but, when unproven, only listed in the evidence (they do not exist in release builds).  obligations == discharged is required; a site listed in KNOWN_FINDINGS.txt (currently one: Client::unblind) is a recorded violation and is reported separately, not counted as an obligation.  NOT decided: termination "
     "and time, stack depth, allocation failure, panics inside external crates beyond their modelled preconditions, "
     "drop glue.")
 ASSUMPTIONS = [
